@@ -71,7 +71,11 @@ func (r *responseStorer) StoreResponse(
 		ReceivedAt:  respTime,
 		ID:          responseID,
 	}
-	_ = r.cache.Set(responseID, respEntry)
+	if err := r.cache.Set(responseID, respEntry); err != nil {
+		// The response could not be stored (e.g. its body could not be read
+		// completely): leave the index alone so nothing of it reaches the store.
+		return err
+	}
 
 	switch {
 	case refs == nil:
